@@ -61,3 +61,87 @@ def eq_with_int_hook_note():
 
 def scenarios():
     return [selfsig(n) for n in (0, 1, 2, 3)]
+
+
+def get_uid(n):
+    """PGPKey.get_uid / del_uid over n identities: an identity is selected by a string EQUAL to its name, comment or e-mail address"""
+    label = 'C15/PGPKey.get_uid+del_uid[%d identities]' % n
+
+    def gen(repo):
+        obls, funcs, paths = [], [], 0
+        B = E.BYTES
+        for fn in ('get_uid', 'del_uid'):
+            r = scn.Run(repo, KEY, fn, label + '[%s]' % fn)
+            ex, st = r.ex, r.st
+            me = E.VObj(KEY, 'key')
+            r.hook(KEY, 'is_primary', scn.const(E.VBool(True)))
+            uids = [E.VObj(UID, 'u%d' % i) for i in range(n)]
+            r.set('key', '_uids', ex.new_list(st, uids))
+            SEARCH = z3.Const('SEARCH', B)
+            attrs = {}
+            for u in uids:
+                for a in ('name', 'comment', 'email'):
+                    attrs[(u.ref, a)] = (z3.Bool('%s_has_%s' % (u.ref, a)) if a != 'name' else z3.BoolVal(True), z3.Const('%s_%s' % (u.ref, a), B))
+
+            def attr_hook(a):
+                def h(ex, st, o, args):
+                    has, val = attrs[(o.ref, a)]
+                    if z3.is_true(has):
+                        return [(st, E.VStr(z=val))]
+                    no = st.clone()
+                    st.pc.append(has)
+                    no.pc.append(z3.Not(has))
+                    return [(st, E.VStr(z=val)), (no, E.VNone())]
+                return h
+            for a in ('name', 'comment', 'email'):
+                r.hook(UID, a, attr_hook(a))
+            back = {}
+            for u in uids:
+                back[u.ref] = E.VExt('weakref.ref', (me,))
+                r.set(u.ref, '__parent', back[u.ref])          # ParentRef keeps a weak reference in its private field
+
+            def matches(ref):
+                return z3.Or(*[z3.And(attrs[(ref, a)][0], attrs[(ref, a)][1] == SEARCH) for a in ('name', 'comment', 'email')])
+            for pi, (s, v) in enumerate(r.call(me, [E.VStr(z=SEARCH)])):
+                paths += 1
+                if fn == 'get_uid':
+                    if isinstance(v, E.Raise):
+                        r.oblige(s, 'safety(%s)/p%d' % (v.exc.split(':')[0], pi), z3.BoolVal(False), v.where)
+                    elif isinstance(v, E.VNone):
+                        r.oblige(s, 'none-only-if-no-identity-carries-exactly-that-string/p%d' % pi, z3.Not(z3.Or(*[matches(u.ref) for u in uids])) if uids else z3.BoolVal(True))
+                    else:
+                        ok = isinstance(v, E.VObj) and v.ref in [u.ref for u in uids]
+                        r.oblige(s, 'is-one-of-the-identities/p%d' % pi, z3.BoolVal(ok))
+                        if ok:
+                            i = [u.ref for u in uids].index(v.ref)
+                            r.oblige(s, 'name,comment-or-address-equals-the-string/p%d' % pi, matches(v.ref))
+                            r.oblige(s, 'first-such-identity/p%d' % pi, z3.Not(z3.Or(*[matches(u.ref) for u in uids[:i]])) if i else z3.BoolVal(True))
+                else:
+                    left = [x.ref for x in ex.items(s.heap.get(('key', '_uids')), s)] if isinstance(s.heap.get(('key', '_uids')), E.VList) else None
+                    if isinstance(v, E.Raise):
+                        r.oblige(s, 'KeyError-only-if-no-identity-carries-exactly-that-string,nothing-removed/p%d' % pi,
+                                 z3.And(z3.BoolVal(v.exc.split(':')[0] == 'KeyError' and left == [u.ref for u in uids]),
+                                        z3.Not(z3.Or(*[matches(u.ref) for u in uids])) if uids else z3.BoolVal(True)), v.where)
+                        continue
+                    gone = [u.ref for u in uids if u.ref not in (left or [])]
+                    r.oblige(s, 'exactly-one-identity-removed,order-of-the-rest-kept/p%d' % pi,
+                             z3.BoolVal(left is not None and len(gone) == 1 and left == [u.ref for u in uids if u.ref != gone[0]]))
+                    if len(gone) == 1:
+                        i = [u.ref for u in uids].index(gone[0])
+                        r.oblige(s, 'the-removed-identity-carries-exactly-that-string-and-is-the-first-such/p%d' % pi,
+                                 z3.And(matches(gone[0]), z3.Not(z3.Or(*[matches(u.ref) for u in uids[:i]])) if i else z3.BoolVal(True)))
+                        r.oblige(s, 'removed-identity-detached-from-the-key,others-still-attached/p%d' % pi,
+                                 z3.BoolVal(isinstance(s.heap.get((gone[0], '__parent')), E.VNone)
+                                            and all(s.heap.get((u.ref, '__parent')) is back[u.ref] for u in uids if u.ref != gone[0])))
+            res = r.result()
+            obls += res['obligations']
+            funcs += res['funcs']
+        return {'obligations': obls, 'funcs': funcs, 'paths': paths}
+    return Scenario(label, KEY + '.get_uid', gen, props=('C15', 'C16', 'C19'))
+
+
+_base_scn_g = scenarios
+
+
+def scenarios():
+    return _base_scn_g() + [get_uid(n) for n in (0, 1, 2)]
